@@ -233,11 +233,6 @@ def corpus():
     B('rc-delete', 'DELETE', '/resource_classes/{name}', ['CUSTOM_UNUSED'])
     # -- resource providers
     B('rp-list', 'GET', '/resource_providers')
-    B('rp-list-all', 'GET', '/resource_providers', query=[
-        ('name', 'rp1'), ('uuid', P(1)), ('member_of', 'in:%s,%s' % (A(1), A(2))),
-        ('member_of', '!' + A(9)), ('resources', 'VCPU:1,MEMORY_MB:512'),
-        ('in_tree', P(1)), ('required', 'HW_CPU_X86_AVX,!CUSTOM_UNUSED'),
-        ('required', 'in:CUSTOM_FAST,HW_CPU_X86_SSE')])
     B('rp-list-name', 'GET', '/resource_providers', query=[('name', 'rp1')])
     B('rp-list-uuid', 'GET', '/resource_providers', query=[('uuid', P(1))])
     B('rp-list-member_of', 'GET', '/resource_providers',
@@ -251,6 +246,11 @@ def corpus():
       query=[('required', 'HW_CPU_X86_AVX,!CUSTOM_UNUSED')])
     B('rp-list-required@1.18', 'GET', '/resource_providers',
       query=[('required', 'HW_CPU_X86_AVX')], mv='1.18')
+    B('rp-list-all', 'GET', '/resource_providers', query=[
+        ('name', 'rp1'), ('uuid', P(1)), ('member_of', 'in:%s,%s' % (A(1), A(2))),
+        ('member_of', '!' + A(9)), ('resources', 'VCPU:1,MEMORY_MB:512'),
+        ('in_tree', P(1)), ('required', 'HW_CPU_X86_AVX,!CUSTOM_UNUSED'),
+        ('required', 'in:CUSTOM_FAST,HW_CPU_X86_SSE')])
     B('rp-post', 'POST', '/resource_providers',
       body={'name': 'rp-new', 'uuid': P(20), 'parent_provider_uuid': P(4)})
     B('rp-post@1.0', 'POST', '/resource_providers', body={'name': 'rp-new'}, mv='1.0')
@@ -311,6 +311,9 @@ def corpus():
       query=[('resources', 'VCPU:1,MEMORY_MB:512')])
     B('ac-flat', 'GET', '/allocation_candidates', query=[
         ('resources', 'VCPU:1,DISK_GB:5'), ('required', 'HW_CPU_X86_AVX,!CUSTOM_UNUSED'),
+        ('member_of', 'in:%s,%s' % (A(1), A(2))), ('limit', '5')])
+    B('ac-local', 'GET', '/allocation_candidates', query=[
+        ('resources', 'VCPU:1,MEMORY_MB:512'), ('required', 'HW_CPU_X86_AVX,!CUSTOM_UNUSED'),
         ('member_of', 'in:%s,%s' % (A(1), A(2))), ('limit', '5')])
     B('ac-granular', 'GET', '/allocation_candidates', query=[
         ('resources', 'MEMORY_MB:512'), ('required', '!CUSTOM_UNUSED'),
@@ -1390,7 +1393,7 @@ class Worker(EnumWorker):
             try:
                 det = resp.json['errors'][0]['detail'][:200]
             except Exception:
-                det = resp.raw[:200].decode('utf-8', 'replace')
+                det = None             # not a JSON body (the client asked for HTML / text)
         return (resp.status, v, det)
 
 
@@ -1450,6 +1453,12 @@ def signature(base, state, part, ops, kind, msg, base_viol):
     if part == 'base':
         return '%s:%s:base[%s]@%s' % (kind, r, base['id'], state)
     labels = [op_label(base, part, op) for op in ops]
+    if kind.startswith('error-format'):
+        # the error body is produced by one formatter: key by operation + status + fields
+        for (pc, opn, jc), op in zip(labels, ops):
+            if opn == 'method':
+                r = '%s %s' % (jc, base['route'])
+        return '%s:%s' % (kind, r)
     if part == 'envelope':
         # a changed method is a different operation: name it in place of the base's method
         for (pc, opn, jc), op in zip(labels, ops):
@@ -1542,10 +1551,12 @@ def run(ctx):
         for kind, msg in viols:
             nviol[0] += 1
             key = (kind, det)
+            bv = base_viols.get((bi, st), ())
             if part == 'base':
                 base_viols.setdefault((bi, st), set()).add(key)
                 sig = signature(base, st, part, ops, kind, msg, None)
-            elif key in base_viols.get((bi, st), ()) and not kind.startswith('state-changed'):
+            elif not kind.startswith('state-changed') and (
+                    key in bv or (det is None and any(k == kind for k, _ in bv))):
                 sig = signature(base, st, 'base', (), kind, msg, None)
             else:
                 sig = None
